@@ -100,15 +100,10 @@ func VerifC14History(q, max int) {
 			return
 		}
 		// known: the slot is given back by the shell goroutine only (no shell: leak; two shells: twice)
-		if leak {
-			verifrt.Finding("C14-KF1", got == faulty)
+		if (leak || double) && got == faulty {
+			verifrt.Assert(false, "the connection count is given back by the shell request handler only: a connection without a shell request leaks its slot, one with two shell requests gives it back twice (the defect repaired by the C14 fix commit is back; "+when+")")
 		}
-		if double {
-			verifrt.Finding("C14-KF2", got == faulty)
-		}
-		if !leak && !double {
-			verifrt.Assert(false, "the reported number of open connections differs from the number actually open ("+when+")")
-		}
+		verifrt.Assert(false, "the reported number of open connections differs from the number actually open ("+when+")")
 	}
 	for i := 0; i < q; i++ {
 		c := &c14Conn{id: i, kind: verifrt.Choose("kind", c14Kinds), closed: make(chan struct{}), chans: make(chan gossh.NewChannel, 2)}
